@@ -713,8 +713,16 @@ func (m *Machine) sortSlice(c *frame, sl value, less value, stable bool) {
 		r := m.call(c, 0, less, []value{mkConst(64, uint64(i)), mkConst(64, uint64(j))})
 		return m.branch(m.asTerm(r))
 	}
+	if len(s) > 1 {
+		m.sliceAccess(&s[0], false)
+	}
+	swapped := false
 	for i := 1; i < len(s); i++ {
 		for j := i; j > 0 && lessAt(j, j-1); j-- {
+			if !swapped {
+				swapped = true
+				m.sliceAccess(&s[0], true)
+			}
 			s[j], s[j-1] = s[j-1], s[j]
 		}
 	}
